@@ -66,12 +66,15 @@ N_REMOVE = {'quick': 40, 'thorough': 400}
 N_OUTSIDE = {'quick': 16, 'thorough': 100}
 N_NONCONTIG = {'quick': 20, 'thorough': 150}
 N_DIRECTED_OUTSIDE = 4
+N_HISTORY = {'quick': 40, 'thorough': 400}
+N_DIRECTED_HISTORY = 4
 N_DIRECTED_HUGEID = 3
 
 RTOL, ATOL = 1e-9, 1e-11
 # operators the engine refuses (or warns about) when derivatives are requested
 NONDIFF = {'belongs', 'and', 'or', 'eq', 'ne', 'le', 'ge', 'lt', 'gt', 'min', 'max'}
 KNOWN_OUTSIDE = 'row-variable-outside-trajectory-accepted-result-depends-on-row-order'
+KNOWN_BOOTSTRAP = 'history-likelihood-after-panel-bootstrap-evaluated-on-the-resampled-map-left-in-the-engine'
 REGRESSION_HUGEID = 'valid-panel-table-refused-integer-ids-beyond-2p53-merged-by-float-comparison'
 
 
@@ -90,6 +93,10 @@ def cases(seed, tier):
     # directed, the same at every run whatever the seed (reproduce recorded findings deterministically)
     for i in range(N_DIRECTED_OUTSIDE):
         out.append({'seed': 'directed', 'i': i, 'mode': 'outside', 'tier': 'quick'})
+    for i in range(N_HISTORY[tier]):
+        out.append({'seed': seed, 'i': i, 'mode': 'history', 'tier': tier})
+    for i in range(N_DIRECTED_HISTORY):
+        out.append({'seed': 'directed', 'i': i, 'mode': 'history', 'tier': 'quick'})
     for i in range(N_DIRECTED_HUGEID):
         out.append({'seed': 'directed', 'i': i, 'mode': 'hugeid', 'tier': 'quick'})
     return out
@@ -154,6 +161,9 @@ def _params(spec, threads=None):
     if spec['mc']:
         p.set_value('number_of_draws', int(spec['ndraws']), 'MonteCarlo')
     p.set_value('save_iterations', False, 'Estimation')
+    if 'bootstrap_samples' in spec:
+        p.set_value('bootstrap_samples', int(spec['bootstrap_samples']), 'Estimation')
+        p.set_value('max_iterations', int(spec['max_iterations']), 'SimpleBounds')
     p.set_value('generate_html', False, 'Output')
     p.set_value('generate_pickle', False, 'Output')
     return p
@@ -162,7 +172,8 @@ def _params(spec, threads=None):
 def _build(spec, ast):
     from ..gen import build
 
-    e, _ = build.build({'ast': copy.deepcopy(ast), 'shared': spec['shared'], 'betas': spec['betas']})
+    e, _ = build.build({'ast': copy.deepcopy(ast), 'shared': spec['shared'], 'betas': spec['betas'],
+                        'bounds': spec.get('bounds', {})})
     return e
 
 
@@ -451,15 +462,159 @@ def _run_outside(cx):
             rec.c('outside_accepted_but_order_independent_' + path)
 
 
+def _run_history(cx, case):
+    """ONE BIOGEME object on a panel table taken through a sequence of public calls. After every simulate the
+    per-individual values are judged against the reference keyed by id at the parameter values in force, after
+    every calculate_likelihood the log likelihood of the data set; at every engine calculation made outside a
+    bootstrap loop the map held by the engine must be the database's current map."""
+    import zlib
+    from biogeme.biogeme import BIOGEME
+    from ..oracle import c09_ref
+    from ..oracle import c09_monitor as mon
+
+    rec, spec = cx.rec, cx.spec
+    genlog = []
+    database, tab, status = _database(cx, 'a', genlog)
+    if database is None:
+        return
+    groups = c09_ref.groups_by_id(tab, spec['idcol'])
+    mon.STATE['history'] = True
+    mon.STATE['database'] = database
+    np.random.seed(zlib.crc32(repr((case['seed'], case['i'])).encode()))
+    try:
+        bg = BIOGEME(database, _build(spec, spec['formulas']['logP']), parameters=_params(spec))
+        bg.modelName = 'c09_history'
+        free = list(bg.free_beta_names)
+    except BaseException as e:  # noqa
+        cx.viol(f'history-constructor-raises-{type(e).__name__}', f'BIOGEME raised {type(e).__name__}: {e}', table=tab)
+        return
+    done = []
+    last_est = None
+    bootstrapped = False     # a panel bootstrap ran on this object ...
+    restored = True          # ... and no simulate() (which hands the database map over again) since
+    judged = 0
+
+    def wit(**kw):
+        d = {'table': tab, 'ops_done': list(done), 'ops': spec['ops']}
+        d.update(kw)
+        return d
+
+    def stale_likelihood_calls(events):
+        """likelihood evaluations made while the engine held another map than the database (outside a bootstrap loop)"""
+        out = []
+        for ev in events:
+            if ev['call'] == 'setDataMap':
+                break  # from here on the bootstrap loop of this very call is resampling on purpose
+            if ev['call'] != 'simulateSeveralFormulas' and not ev['current']:
+                out.append(ev)
+        return out
+
+    for k, op in enumerate(spec['ops']):
+        start = len(mon.HIST)
+        mon.STATE['phase'] = op
+        rec.c('history_op_' + op)
+        vals = dict(spec['op_values'][k])
+        if last_est is not None and k % 2 == 0:
+            vals = {n: float(last_est[n]) for n in vals}
+        try:
+            if op == 'simulate':
+                sim = bg.simulate({n: vals[n] for n in free})
+            elif op == 'loglike':
+                ll = bg.calculate_likelihood([vals[n] for n in free], scaled=False)
+            elif op == 'estimate':
+                last_est = bg.estimate().get_beta_values()
+            elif op == 'estimate_bootstrap':
+                last_est = bg.estimate(run_bootstrap=True).get_beta_values()
+            elif op == 'quick_estimate':
+                last_est = bg.quick_estimate().get_beta_values()
+        except BaseException as e:  # noqa
+            if op in ('simulate', 'loglike'):
+                cx.viol(f'history-{op}-raises-{type(e).__name__}', f'after {done}: {op} raised {type(e).__name__}: {e}', **wit())
+            else:
+                rec.c(f'history_{op}_raised_{type(e).__name__}')
+            break
+        finally:
+            mon.STATE['phase'] = None
+        events = mon.HIST[start:]
+        from_bootstrap = bootstrapped and not restored
+        if op == 'simulate':
+            rec.ev()
+            bad = [ev for ev in events if ev['call'] == 'simulateSeveralFormulas' and (not ev['current'] or ev.get('problems'))]
+            if bad:
+                cx.viol('history-engine-holds-another-map-than-the-database-when-simulate-evaluates',
+                        f'after {done}: at simulateSeveralFormulas the map inside the engine (last handed over during '
+                        f'{bad[0]["map_phase"]!r}) is not Database.individualMap {bad[0].get("problems")}', **wit())
+            j = c09_ref.reference(spec, tab, spec['formulas']['logP'], vals)
+            labels = list(sim.index)
+            if len(labels) != len(groups) or set(labels) != set(groups):
+                cx.viol('history-simulate-index-is-not-the-set-of-individuals', f'after {done}: rows labelled {labels[:12]}', **wit())
+            elif j['ok']:
+                rec.ev()
+                judged += 1
+                rec.c('history_simulate_judged')
+                if bootstrapped:
+                    rec.c('history_simulate_after_bootstrap_judged')
+                want = dict(zip(j['order'], j['value'].tolist()))
+                got = dict(zip(labels, np.asarray(sim['log_like'], dtype=float).tolist()))
+                a = np.array([got[i] for i in j['order']])
+                b = np.array([want[i] for i in j['order']])
+                if not close(a, b, RTOL, ATOL):
+                    worst = max(j['order'], key=lambda i: abs(got[i] - want[i]))
+                    cx.viol('history-simulate-differs-from-product-over-the-rows-of-the-individual',
+                            f'after {done}: simulate at {vals}: individual {worst!r} (rows {groups[worst]}): {got[worst]!r}, '
+                            f'reference {want[worst]!r}; maxrel={maxrel(a, b):.3g}', simulate=got, reference=want, **wit())
+            else:
+                rec.c('history_reference_rejected')
+            restored = True
+        else:
+            stale = stale_likelihood_calls(events)
+            if stale:
+                rec.ev()
+                known = from_bootstrap and all(ev['map_phase'] == 'estimate_bootstrap' for ev in stale)
+                cx.viol(KNOWN_BOOTSTRAP if known else f'history-engine-holds-another-map-than-the-database-when-{op}-evaluates',
+                        f'after {done}: during {op} the likelihood was evaluated {len(stale)} time(s) with the map handed over '
+                        f'during {stale[0]["map_phase"]!r} inside the engine, which is not Database.individualMap', **wit())
+            if op == 'loglike':
+                j = c09_ref.reference(spec, tab, spec['formulas']['logP'], vals)
+                if j['ok']:
+                    rec.ev()
+                    rec.c('history_loglike_judged')
+                    if from_bootstrap:
+                        rec.c('history_loglike_right_after_bootstrap_judged')
+                    want = float(np.sum(j['value']))
+                    if not close(ll, want, RTOL, 1e-11 * float(np.sum(np.abs(j['value']))) + 1e-12):
+                        cx.viol(KNOWN_BOOTSTRAP if (from_bootstrap and stale) else 'history-loglikelihood-differs-from-sum-over-individuals',
+                                f'after {done}: calculate_likelihood at {vals} = {ll!r}, log likelihood of the data set = {want!r}', **wit())
+            if op == 'estimate_bootstrap':
+                bootstrapped = True
+                restored = False
+        done.append(op)
+    if judged and len(tab[spec['idcol']]) >= 2:
+        rec.key(['history', spec['canon'], spec['pres_a'], spec['ops'], spec['op_values'], spec['draws'], spec['ndraws']])
+    rec.c('history_cases_run')
+    if len(done) == len(spec['ops']):
+        rec.c('history_cases_completed')
+    rec.sample({'idcol': spec['idcol'], 'table': tab, 'formula': spec['formulas']['logP'], 'operations': spec['ops'],
+                'bootstrap_samples': spec['bootstrap_samples'], 'operations_completed': done})
+
+
 def run_case(case):
     from ..gen import c09_panel
     from ..oracle import c09_monitor as mon
 
-    spec = c09_panel.make(case['seed'], case['i'], case.get('tier', 'quick'), case['mode'])
+    if case['mode'] == 'history':
+        spec = c09_panel.make_history(case['seed'], case['i'], case.get('tier', 'quick'))
+    else:
+        spec = c09_panel.make(case['seed'], case['i'], case.get('tier', 'quick'), case['mode'])
     rec = Rec(case)
     cx = _Ctx(rec, spec)
     mon.reset(spec['idcol'])
     rec.c('mode_' + spec['mode'])
+    if spec['mode'] == 'history':
+        _run_history(cx, case)
+        for k, v in mon.COUNT.items():
+            rec.c(k, v)
+        return rec.out()
     if spec['mode'] == 'outside':
         _run_outside(cx)
         for k, v in mon.COUNT.items():
@@ -542,6 +697,9 @@ def finalize(cov, tier):
         'permutation_partner_compared', 'loglikelihood_compared', 'get_value_c_compared',
         'montecarlo_cases', 'plain_trajectory_cases', 'cases_with_rows_removed_after_panel',
         'rows_removed_after_panel_api', 'rows_removed_after_panel_direct',
+        'history_simulate_judged', 'history_simulate_after_bootstrap_judged', 'history_loglike_judged',
+        'history_engine_map_compared_simulateSeveralFormulas', 'history_engine_map_compared_calculateLikelihood',
+        'history_op_estimate', 'history_op_estimate_bootstrap', 'history_op_quick_estimate',
         'noncontiguous_table_refused', 'outside_refused_single-formula',
         'individuals_1', 'individuals_2_to_12', 'individuals_13_to_40', 'tables_with_singletons_only',
         'tables_mixing_singletons_and_longer_blocks', 'tables_over_16_rows',
